@@ -66,6 +66,7 @@ def classify (ct : String) (body sent : List UInt8) : Body :=
       else .other
     | none =>
       if s.startsWith "event: message_start" && contains s "event: message_stop" then .sse (contains s "event: content_block_start")
+      else if s.startsWith "event: message_start" && contains s "event: error" then .sseBroken
       else if ct.startsWith "text/plain" then
         (if !sent.isEmpty && !(body.take 8).isEmpty && (body.take 8).isPrefixOf sent then .backendThenError else .ollaText)
       else .other
@@ -79,6 +80,7 @@ def describe : Body → String
   | .anthropicMessage => "a translated Anthropic message"
   | .sse true => "an Anthropic event stream with content"
   | .sse false => "an EMPTY Anthropic event stream (message_start … message_delta … message_stop, no content block)"
+  | .sseBroken => "an Anthropic event stream that ends in an error event, without message_stop"
   | .empty => "an empty body"
   | .other => "an unrecognised body"
 
